@@ -1420,6 +1420,9 @@ func FunExpr(query *Query, current Map, expr *sqlparser.FuncExpr, opts ...ExprOp
 		var err error
 		query.postProcessors = append(query.postProcessors, func() error {
 			slice, e := FuncArgReader(query, current, expr.Exprs)
+			if e == nil {
+				e = Guard(1, slice)
+			}
 			if e != nil {
 				err = e
 				return e
